@@ -116,4 +116,14 @@ CHECKS = {
         "real": ["two complete nodes, async-raft-ext InstallSnapshot streaming through RaftSnapshotRequestHandler, FileStore::create_snapshot / finalize_snapshot_installation, StateApplyManager::apply_snapshot"],
         "stub": STUB + ["transport as C06"],
     },
+    "C19": {
+        "level": "exploration",
+        "quick": {"runs": 1600, "wall_s": 150},
+        "thorough": {"runs": 40000, "wall_s": 1800},
+        "rule": "1 node (60 %) or 3 nodes (40 %, after a forced early leader change); seeded script of next-id requests (1..6 per step) and direct range requests (1..120) on 3 named sequences from arbitrary nodes, issued as concurrent client tasks (several in flight per node, so the double buffer's refill races its consumers), config publishes (history ids), clean restarts and kill -9 restarts (followers only in the 3-node variant), small compaction thresholds and disk latencies; oracle over the whole run: no id of a sequence is returned twice by any node, ids of one kind (cache / direct range) on one node increase in real-time order, history ids are never stamped on two different entries and decrease newest-first; non-trivial = at least 4 id requests answered; distinct = distinct event-log hash",
+        "probes": ["node_restarted", "needs_snapshot_loop_detected"],
+        "assumptions": ["ids of the node-local cache (GetNextId) and directly drawn ranges (GetDirectRange) are compared for monotonicity within one kind only: they come from different ranges by design", "explicit resets (SetId) are not generated", "leader death in the 3-node variant is excluded (it runs into the async-raft defects recorded under C06)"],
+        "real": ["complete node(s): SequenceManager (double-buffered client side), SequenceDbManager (state machine), ConfigActor history-id sequence, async-raft, FileStore"],
+        "stub": STUB + ["transport as C06 in the 3-node variant"],
+    },
 }
